@@ -18,8 +18,10 @@
 #include <ascon/pbkdf2.h>
 #include <ascon/random.h>
 
-static uint8_t SEC[4096]; static size_t entropy_pos = 2048;
-ssize_t getrandom(void *buf, size_t n, unsigned flags) { (void)flags; memcpy(buf, SEC + (entropy_pos & 2047) + 2048 - (n > 1024 ? 0 : 0), n > 1024 ? 1024 : n); entropy_pos += 32; return (ssize_t)n; }
+static uint8_t SEC[4096];
+/* every entropy request is served from the same secret bytes at the same address, so that two calls of the same
+ * primitive have identical address traces whatever happened before them */
+ssize_t getrandom(void *buf, size_t n, unsigned flags) { (void)flags; memcpy(buf, SEC + 2048, n > 1024 ? 1024 : n); return (ssize_t)n; }
 
 static const int SH[] = {0, 1, 8, 9, 17, 33};
 #define NSH 6
